@@ -7,7 +7,21 @@ import (
 	"pault.ag/go/debian/control"
 )
 
+// otherKinds decodes one document of every other typed kind: a program that orders sources has usually read
+// .changes files and indexes before, in the same process
+func otherKinds() {
+	control.ParseChanges(bufio.NewReader(strings.NewReader("Format: 1.8\nSource: w\nBinary: w1 w2 w3\nArchitecture: source amd64\nVersion: 1-1\nMaintainer: A <a@b.c>\nCloses: 1 2\nFiles:\n d41d8cd98f00b204e9800998ecf8427e 0 devel optional w_1-1.dsc\n")), "")
+	control.ParseSourceIndex(bufio.NewReader(strings.NewReader("Package: v\nBinary: v1, v2\nVersion: 1\nArchitecture: any all\nFiles:\n d41d8cd98f00b204e9800998ecf8427e 0 v_1.dsc\n")))
+	control.ParseBinaryIndex(bufio.NewReader(strings.NewReader("Package: u\nVersion: 1\nArchitecture: amd64\nTag: a::b, c::d\nBuild-Ids: 1 2\n")))
+	control.ParseControl(bufio.NewReader(strings.NewReader("Source: t\nMaintainer: A <a@b.c>\nUploaders: B <b@b.c>, C <c@b.c>\nBuild-Depends: x, y\n\nPackage: t1\nArchitecture: any all\n")), "")
+}
+
 func init() {
+	// dscorderafter: the same, in a process that has decoded documents of the other kinds first
+	ops["dscorderafter"] = func(a []string) string {
+		otherKinds()
+		return ops["dscorder"](a)
+	}
 	ops["dscorder"] = func(a []string) string {
 		arch := mkArch(a, 0)
 		dscs := []control.DSC{}
